@@ -711,7 +711,11 @@ class UnitDatabase(Singleton):
         if category_info.valid_units is not None:
             return category_info.valid_units
         else:
-            if category_info.quantity_type != category:
+            if (
+                category_info.quantity_type != category
+                and category_info.quantity_type in self.categories_to_quantity_types
+            ):
+                # use the valid units of the category named after the quantity type (if there is one)
                 return self.GetValidUnits(category_info.quantity_type)
 
             # the valid units have not been specified for the given category (so, let's return
